@@ -98,7 +98,7 @@ package bbolt
 //@   modifies lastpage
 
 //@ func (*DB).meta
-//@   props C11 C01 C06 C03
+//@   props C11 C01 C06 C03 C02 C12
 //@   requires db.meta0 != nil && db.meta1 != nil
 //@   panics when !metavalid(db.meta0) && !metavalid(db.meta1)
 //@   ensures [one] result == db.meta0 || result == db.meta1
@@ -166,7 +166,7 @@ package bbolt
 //@ pure func dbmeta(db *DB) *common.Meta = db.meta1.txid > db.meta0.txid ? (metavalid(db.meta1) ? db.meta1 : db.meta0) : (metavalid(db.meta0) ? db.meta0 : db.meta1)
 
 //@ func (*Tx).init
-//@   props C03 C02 C06
+//@   props C03 C02 C06 C01
 //@   requires db != nil && db.meta0 != nil && db.meta1 != nil && (metavalid(db.meta0) || metavalid(db.meta1))
 //@   requires tx != nil && dbmeta(db).txid < 18446744073709551615
 //@   ensures [db] tx.db == db && tx.meta != nil && tx.meta != db.meta0 && tx.meta != db.meta1
@@ -226,7 +226,7 @@ package bbolt
 
 //@ func (*Tx).rollback
 //@   ensures [batchmu] old(tx.db) != nil ==> old(tx.db).batchMu.held == old(tx.db.batchMu.held)
-//@   props C08 C03 C07
+//@   props C08 C03 C07 C02 C06 C10 C13
 //@   requires tx.db != nil && tx.writable ==> tx.db.rwlock.held && tx.meta != nil && tx.db.freelist != nil
 //@   requires tx.db != nil && tx.writable && tx.db.data != nil ==> tx.db.meta0 != nil && tx.db.meta1 != nil && (metavalid(tx.db.meta0) || metavalid(tx.db.meta1))
 //@   requires tx.db != nil && !tx.writable ==> tx.db.mmaplock.rcount >= 1 && tx.meta != nil && !tx.db.metalock.held
@@ -302,7 +302,7 @@ package bbolt
 
 //@ func (*Tx).Commit
 //@   returns (err)
-//@   props C01 C03 C06 C07 C08 C18
+//@   props C01 C03 C06 C07 C08 C18 C02 C13
 //@   requires !tx.managed
 //@   requires tx.db != nil && tx.writable ==> tx.db.rwlock.held && tx.db.rwtx == tx && tx.meta != nil && tx.db.freelist != nil && !tx.db.metalock.held && tx.root.tx == tx
 //@   requires tx.db != nil && tx.writable ==> tx.db.pageSize >= 512 && tx.db.pageSize <= 16777216 && tx.meta.magic == common.Magic && tx.meta.version == common.Version
@@ -331,7 +331,7 @@ package bbolt
 //@ func (*DB).beginRWTx
 //@   returns (t, err)
 //@   ensures [batchmu] db.batchMu.held == old(db.batchMu.held)
-//@   props C03 C10 C17 C02
+//@   props C03 C10 C17 C02 C06
 //@   requires !db.metalock.held && (db.readOnly || !db.rwlock.held)
 //@   requires !db.readOnly && db.opened && db.data != nil ==> db.meta0 != nil && db.meta1 != nil && (metavalid(db.meta0) || metavalid(db.meta1)) && dbmeta(db).txid < 18446744073709551615 && db.freelist != nil
 //@   ensures [readonly] db.readOnly ==> err == berrors.ErrDatabaseReadOnly && t == nil && calls("sync.(*Mutex).Lock", db.rwlock) == old(calls("sync.(*Mutex).Lock", db.rwlock))
